@@ -1,6 +1,7 @@
 package sign
 
 import (
+	"errors"
 	"fmt"
 
 	"github.com/taurusgroup/multi-party-sig/internal/round"
@@ -19,6 +20,15 @@ const (
 
 func StartSignCommon(taproot bool, result *keygen.Config, signers []party.ID, messageHash []byte) protocol.StartFunc {
 	return func(sessionID []byte) (round.Session, error) {
+		if len(messageHash) == 0 {
+			return nil, errors.New("sign.StartSign: message is empty")
+		}
+		// every signer must hold a share of this key: their verification shares are needed to check their responses
+		for _, id := range signers {
+			if share, ok := result.VerificationShares.Points[id]; !ok || share == nil {
+				return nil, fmt.Errorf("sign.StartSign: signer %s is not a shareholder", id)
+			}
+		}
 		info := round.Info{
 			FinalRoundNumber: protocolRounds,
 			SelfID:           result.ID,
